@@ -418,8 +418,8 @@ Theorem state_cands_prefix en s p l c : In (l, c) (state_cands en s p) -> String
 Proof.
   unfold state_cands. intro H. apply in_flat_map in H. destruct H as [[a k] [_ H]]. cbn [fst] in H.
   destruct a as [t d lv | cc lv | | x lv]; cbn [item_cands] in H.
-  - destruct (String.prefix p t) eqn:E; [| destruct H]. destruct H as [H | []]. inversion H; subst.
-    apply prefix_append_r. assumption.
+  - destruct (String.prefix p (append t " ")) eqn:E; [| destruct H]. destruct H as [H | []]. inversion H; subst.
+    assumption.
   - apply in_map_iff in H. destruct H as [o [H Ho]]. inversion H; subst.
     apply filter_In in Ho. destruct Ho as [_ Ho]. assumption.
   - destruct H.
